@@ -2,6 +2,7 @@ package main
 
 import (
 	"fmt"
+	"regexp"
 	"sort"
 	"strings"
 
@@ -186,6 +187,8 @@ func genMemberWorkspace(r *lib.Rng) map[string]string {
 			ls = append(ls, b...)
 		}
 	}
+	// fixed (every workspace, no random draw): an intermediate member that only a deeper assignment introduces
+	ls = append(ls, "local gap = {}", "gap.mid.leaf = 2", "print(gap.mid.leaf, gap.mid)", "_G.gcfg = {}", "gcfg.far.away = 3", "print(gcfg.far.away, gcfg.far)")
 	return map[string]string{"main.lua": strings.Join(ls, "\n") + "\n"}
 }
 
@@ -239,10 +242,10 @@ func c12Multi(res *lib.Result, dir string, files map[string]string, tag string, 
 		}
 	}
 	type defRes struct {
-		k          string
-		file       string
-		line, col  int
-		ok         bool
+		k         string
+		file      string
+		line, col int
+		ok        bool
 	}
 	defAt := map[string]defRes{}
 	def := func(file string, line, col int) (defRes, error) {
@@ -352,7 +355,7 @@ func c12Multi(res *lib.Result, dir string, files map[string]string, tag string, 
 			}
 			// class K5: a member with no declaration anywhere: the definition is the declaration of its longest known
 			// prefix (another identifier than the one under the cursor)
-			if isMember && d.ok {
+			if isMember && d.ok && !c12AssignedSomewhere(files, c12ParentOf(strings.Split(files[p.file], "\n")[p.line], p.bcol)+"."+p.name) {
 				dl := strings.Split(files[d.file], "\n")
 				if d.line < len(dl) && d.col+len(p.name) <= len(dl[d.line]) && dl[d.line][d.col:d.col+len(p.name)] != p.name ||
 					(d.line < len(dl) && d.col+len(p.name) > len(dl[d.line])) {
@@ -388,4 +391,30 @@ func braceDepth(line string, col int) int {
 		}
 	}
 	return d
+}
+
+// c12AssignedSomewhere: some file assigns a member path that ends in or passes through the two-name path
+// 'parent.name' as it is written at the cursor ('parent.name = v', 'parent.name.leaf = v', 'function parent.name()'):
+// the member has a declaration, class K5 ("declared nowhere") does not apply
+func c12AssignedSomewhere(files map[string]string, name string) bool {
+	q := regexp.QuoteMeta(name)
+	re := regexp.MustCompile(`(^|[^A-Za-z0-9_])` + q + `\s*((\.[A-Za-z_][A-Za-z0-9_]*|\[[^\]]*\])\s*)*=([^=]|$)|function\s+[A-Za-z0-9_.:]*[.:]` + q + `\s*\(`)
+	for _, t := range files {
+		for _, l := range strings.Split(t, "\n") {
+			if re.MatchString(l) {
+				return true
+			}
+		}
+	}
+	return false
+}
+
+// c12ParentOf: the identifier directly before the '.' that precedes byte column bcol
+func c12ParentOf(line string, bcol int) string {
+	e := bcol - 1
+	b := e
+	for b > 0 && (line[b-1] == '_' || line[b-1] >= '0' && line[b-1] <= '9' || line[b-1] >= 'a' && line[b-1] <= 'z' || line[b-1] >= 'A' && line[b-1] <= 'Z') {
+		b--
+	}
+	return line[b:e]
 }
